@@ -119,6 +119,21 @@ def r2_wrap_once(r, facts):
         e = eb.operand(t['args'][0])
         roles = mroles.get(g.path, (None, None, {}))[2]
         origin = classify_fd_origin(g, roles, e, g.j.get('unsafe'))
+        if origin is None and g.kind == 'closure' and e[0] == 'arg' and e[1] == 2:
+            # `fds.map(|fd| AsyncFd::from_raw(fd, ..))`: the closure runs once per element of the array it is mapped over;
+            # the origin is that of the array in the function that creates the closure
+            from .kernel import closure_captures
+            parent, _caps = closure_captures(facts, g)
+            if parent is not None:
+                pe = ExprBuilder(parent, multi='phi')
+                for l2, t2 in parent.calls():
+                    if (t2.get('callee') or '').endswith('::map') and 'array' in (t2.get('callee') or '') and len(t2['args']) == 2:
+                        clo = pe.operand(t2['args'][1])
+                        if clo[0] == 'agg' and g.path in str(clo[1:3]) or any(s_['rv'].get('closure') == g.path and is_local(t2['args'][1], s_['lhs']['l']) for _, s_ in parent.assigns() if s_['rv']['k'] == 'agg'):
+                            proles = mroles.get(parent.path, (None, None, {}))[2]
+                            origin = classify_fd_origin(parent, proles, pe.operand(t2['args'][0]), parent.j.get('unsafe'))
+                            if origin is not None:
+                                origin += ' (each element of the mapped array once)'
         # pipe: resources.0[index local] -> resolve the index constant
         idx = None
         pl = t['args'][0]
